@@ -13,7 +13,8 @@ from ..model import dotted, unparse, norm
 from ..rulelib import Ctx, short
 from ..effects import Effects
 
-CALLBACKS = {'lineReceived': ['TR', 'WB'], 'datagramReceived': ['TR', 'WBM', 'TR'], 'stringReceived': ['TR', 'WB']}
+# the address Twisted hands to datagramReceived is a (host string, port) pair: trusted, and never None
+CALLBACKS = {'lineReceived': ['TR', 'WB'], 'datagramReceived': ['TR', 'WBM', ('T', 'TS', 'TR')], 'stringReceived': ['TR', 'WB']}
 LISTENERS = ('carbon.protocols',)
 
 
@@ -159,7 +160,17 @@ def rule_frame_local(check, cx, rule):
         return True
       if isinstance(e, ast.Name) and depth < 2:
         rds = reaching_defs(g, e.id, node)
-        vals = [value_assigned(d, e.id) for d in rds if d is not g.entry]
+        vals = []
+        for d in rds:
+          if d is g.entry:
+            continue
+          v = value_assigned(d, e.id)
+          if not isinstance(v, ast.AST) and d.kind == 'with' and d.owner is not None:
+            # with StringIO(frame) as stream:  (StringIO.__enter__ returns the object itself)
+            for it in d.owner.items:
+              if isinstance(it.optional_vars, ast.Name) and it.optional_vars.id == e.id:
+                v = it.context_expr
+          vals.append(v)
         return bool(vals) and len(vals) == len(rds) and all(isinstance(v, ast.AST) and fresh(v, d, depth + 1) for v, d in zip(vals, rds))
       return False
     if not ctors:
